@@ -913,3 +913,64 @@ func TestFileDatasource(t *testing.T) {
 		c.NonTrivial()
 	})
 }
+
+// A datasource hands every payload to every property handler registered at that moment: histories of AddPropertyHandler /
+// RemovePropertyHandler / Handle over one datasource.Base with three recording handlers. After a delivery every registered
+// handler holds the delivered payload (whether it got it now or already held it), every other handler is untouched.
+func TestBaseHandlers(t *testing.T) {
+	hx.Check(t, hx.N{Quick: 4000, Thorough: 40000}, func(t *rapid.T, c *hx.Case) {
+		var b datasource.Base
+		const nh = 3
+		holds := make([]string, nh)
+		calls := make([]int, nh)
+		hs := make([]datasource.PropertyHandler, nh)
+		for i := 0; i < nh; i++ {
+			i := i
+			hs[i] = datasource.NewDefaultPropertyHandler(
+				func(src []byte) (interface{}, error) { return string(src), nil },
+				func(data interface{}) error { holds[i] = data.(string); calls[i]++; return nil })
+		}
+		registered := make([]bool, nh)
+		lateAfterDelivery := false
+		delivered := false
+		n := rapid.IntRange(1, 14).Draw(t, "ops")
+		for k := 0; k < n; k++ {
+			switch op := rapid.IntRange(0, 4).Draw(t, "op"); {
+			case op == 0:
+				i := rapid.IntRange(0, nh-1).Draw(t, "h")
+				b.AddPropertyHandler(hs[i])
+				if !registered[i] && delivered {
+					lateAfterDelivery = true
+				}
+				registered[i] = true
+				c.Op("add handler %d", i)
+			case op == 1:
+				i := rapid.IntRange(0, nh-1).Draw(t, "h")
+				b.RemovePropertyHandler(hs[i])
+				registered[i] = false
+				c.Op("remove handler %d", i)
+			default:
+				p := rapid.SampledFrom([]string{"A", "B", "A", "C"}).Draw(t, "payload")
+				before := append([]string(nil), holds...)
+				err := b.Handle([]byte(p))
+				delivered = true
+				c.Op("deliver %q -> %v (handlers hold %v)", p, err, holds)
+				if err != nil {
+					t.Fatalf("Handle(%q): %v", p, err)
+				}
+				for i := 0; i < nh; i++ {
+					if registered[i] && holds[i] != p {
+						t.Fatalf("payload %q was delivered to the datasource but registered handler %d still holds %q (registered %v, all handlers hold %v)", p, i, holds[i], registered, holds)
+					}
+					if !registered[i] && holds[i] != before[i] {
+						t.Fatalf("handler %d is not registered but received payload %q", i, p)
+					}
+				}
+			}
+		}
+		c.ClassIf(lateAfterDelivery, "handler-added-after-a-delivery")
+		if lateAfterDelivery {
+			c.NonTrivial()
+		}
+	})
+}
